@@ -8,6 +8,7 @@ VARIABLE h
 
 F8 == 1008   \* dtype tokens
 F4 == 1004
+F8B == 2008  \* eight-byte floats in the opposite byte order
 NoneTok == 1000
 
 Arr(b, dt, sh) == [kind |-> "arr", bytes |-> b, dtype |-> dt, shape |-> sh]
@@ -25,7 +26,10 @@ Oth(s) == [kind |-> "oth", str |-> s]
 \*  8: as 1, xout/yout passed by keyword (replay schedules only)
 \*  9: arrays + scalars 1, 0, False      (str() atoms: digit tokens 2000+d, False = 1002)
 \* 10: arrays + scalars 10, False        -- same concatenated str() as 9
-MCPool == (1..7) \cup {9, 10}
+\* 11: x = 3 elems, y = 3 elems of other bytes                  (f8)
+\* 12: as 11, the same bytes in the opposite byte order (same shape and item
+\*     size, other values)
+MCPool == (1..7) \cup {9, 10, 11, 12}
 MCArgs(p) ==
     CASE p = 1 -> <<Arr(<<1,2,3,4>>, F8, <<2>>), Arr(<<5,6,7,8>>, F8, <<2>>),
                     Arr(<<9,10>>, F8, <<1>>), Arr(<<11,12>>, F8, <<1>>)>>
@@ -45,6 +49,10 @@ MCArgs(p) ==
                     Oth(<<2001>>), Oth(<<2000>>), Oth(<<1002>>)>>
       [] p = 10 -> <<Arr(<<1,2,3,4,5,6>>, F8, <<3>>), Arr(<<7,8,9,10,11,12>>, F8, <<3>>),
                     Oth(<<2001, 2000>>), Oth(<<1002>>)>>
+      [] p = 11 -> <<Arr(<<41,42,43,44,45,46>>, F8, <<3>>), Arr(<<47,48,49,50,51,52>>, F8, <<3>>),
+                     Oth(<<NoneTok>>), Oth(<<NoneTok>>)>>
+      [] p = 12 -> <<Arr(<<41,42,43,44,45,46>>, F8B, <<3>>), Arr(<<47,48,49,50,51,52>>, F8B, <<3>>),
+                     Oth(<<NoneTok>>), Oth(<<NoneTok>>)>>
       [] p = 8 -> <<Arr(<<1,2,3,4>>, F8, <<2>>), Arr(<<5,6,7,8>>, F8, <<2>>),
                     Arr(<<9,10>>, F8, <<1>>), Arr(<<11,12>>, F8, <<1>>)>>
 \* semantic identity: memory layout is irrelevant (6 = 3)
@@ -54,6 +62,8 @@ MCFuncs == {1, 2}
 \* variant (pool member 8 = member 1 with xout/yout passed by keyword)
 HFuncs == 1..4
 HPool == 1..10
+\* second replay family: the byte-order pair with the plain/f4 members
+HPool2 == {3, 4, 11, 12}
 
 Depth == TLCGet("level") <= MaxDepth
 
